@@ -10,6 +10,7 @@ From LV Require Import Base.Bytes Base.Sx Model.Obj Model.Writer Model.Parser Mo
 From LV Require Import Model.LoaderExt Proofs.LoaderExtProofs Proofs.LoadsLoopProofs.
 From LV Require Proofs.C07Bytes Proofs.LoadProofsStream Model.Png.
 From LV Require Import Proofs.LoadsFilterProofs.
+From LV Require Proofs.LoadsRefLenProofs Proofs.LengthRefProofs.
 From LV Require Import Proofs.LoadsStreamProofs Proofs.LoadsMultiXSec.
 From Coq Require Import Lia.
 Local Open Scope N_scope.
@@ -56,6 +57,44 @@ Qed.
 Lemma chain_ok_weaken dec can buf : forall rest hi hi', hi <= hi' -> chain_ok dec can buf hi rest -> chain_ok dec can buf hi' rest.
 Proof. destruct rest as [|[off [x t]] rest]; intros hi hi' H K; [exact I|]. cbn [chain_ok] in *. destruct K as [K1 K2]. split; [lia|exact K2]. Qed.
 
+
+(* one object at its place, Length direct or a reference to an integer object that the table [x] places in [buf] *)
+Lemma indirect_x_top2 buf x (a : adoc) tp post (yl_of : N -> istyle) :
+  LoadsRefLenProofs.top_ok2 a tp -> fst (fst (fst tp)) <= u32_max ->
+  (forall li lg len, In ((li, lg), OInt len) (a_objs a) ->
+     exists offl rest, xget x li = Some (XNormal offl lg) /\ offl <= blen buf /\
+       from offl buf = w_indirect li lg (OInt len) (yl_of li) ++ rest /\ li <= u32_max /\ lg <= u16_max /\ in_i64 len = true) ->
+  indirect_x buf x (top_text tp ++ post) None = IxOk (fst (fst tp)) (loaded_top tp) None /\ no_objstm (loaded_top tp).
+Proof.
+  intros Hk Hi Hlen. destruct tp as [[[i g] o] y]. unfold LoadsRefLenProofs.top_ok2 in Hk. unfold top_text, loaded_top. cbn [fst snd] in *.
+  destruct Hk as [_ [Hg Ho]]. rewrite <- app_assoc. unfold indirect_x.
+  destruct o as [| | | | | | | |d c|];
+    try (destruct Ho as [Hw Hn]; split; [|exact I];
+         match goal with |- indirect_with ?b ?s0 ?e ?l = _ => pose proof (indirect_with_agrees b s0 e l) as A end;
+         rewrite indirect_any_spelling in A by (try assumption; intros d0 c0 K; discriminate K);
+         destruct A as [pos [-> [->|[d0 [K _]]]]]; [reflexivity|discriminate K]).
+  destruct Ho as [Hw [Hn [HT HL]]].
+  assert (Hno : no_objstm (stream_new (denote_dict d (dict_sts (i_obj y))) c)).
+  { unfold stream_new, no_objstm. unfold has_type. rewrite LoadsTableProofs.dict_get_set_other by reflexivity.
+    apply (has_type_denote d _ K_ObjStm HT). }
+  split; [|exact Hno].
+  destruct HL as [HL|[li [lg [HL Hl0]]]].
+  - match goal with |- indirect_with ?b ?s0 ?e ?l = _ => pose proof (indirect_with_agrees b s0 e l) as A end.
+    rewrite indirect_stream_any_spelling in A by assumption.
+    destruct A as [pos [-> [->|[d0 [K Kn]]]]]; [reflexivity|].
+    exfalso. unfold stream_new in K. inversion K; subst. unfold no_length in Kn. rewrite FilterProofsDict.dict_get_set_same in Kn. exact Kn.
+  - destruct (Hlen li lg (Z.of_nat (length c)) Hl0) as [offl [rest [Hx [Hb [Hf [Hli [Hlg Hz]]]]]]].
+    apply (LengthRefProofs.indirect_ref_length_eager i g d c y _ li lg Hi Hg Hw Hn HL); [|exact I].
+    apply (LengthRefProofs.get_length_finds _ buf x [] li lg (Z.of_nat (length c)) (yl_of li) offl rest).
+    + reflexivity.
+    + vm_compute. lia.
+    + unfold get_offset. cbn [fst snd]. rewrite Hx, N.eqb_refl. reflexivity.
+    + exact Hb.
+    + exact Hf.
+    + exact Hli.
+    + exact Hlg.
+    + exact Hz.
+Qed.
 
 Lemma offs_of_app : forall l1 l2 pos, offs_of pos (l1 ++ l2) = offs_of pos l1 ++ offs_of (pos + N.of_nat (length (body_of l1))) l2.
 Proof.
@@ -138,7 +177,7 @@ Section Multi.
   Variable xids : list N.        (* the numbers of the cross-reference streams of all parts *)
   Hypothesis Hndx : NoDup (nums ++ xids).
   Hypothesis H0x : ~ In 0 xids.
-  Hypothesis Htops : Forall top_ok tops.
+  Hypothesis Htops : Forall (LoadsRefLenProofs.top_ok2 a) tops.
   Definition trailer_dom (t : tstyle) : Prop :=
     forall sz prev, sz <= u32_max -> (prev = None \/ exists q, q <= u32_max /\ prev = Some q) ->
       spell_wf (ODict (a_trailer a ++ [(RefWriter.K_Size, OInt (Z.of_N sz))] ++ p_prev prev)) (t_trailer t) /\
@@ -183,7 +222,7 @@ Section Multi.
   Lemma tops_nums_eq : map top_num tops = nums.
   Proof. unfold LoadsTableProofs.tops, LoadsTableProofs.nums. rewrite map_map. reflexivity. Qed.
 
-  Lemma tops_id cur : In cur tops -> 1 <= top_num cur /\ snd (fst (fst cur)) <= u16_max /\ In (top_num cur) nums /\ top_ok cur.
+  Lemma tops_id cur : In cur tops -> 1 <= top_num cur /\ snd (fst (fst cur)) <= u16_max /\ In (top_num cur) nums /\ LoadsRefLenProofs.top_ok2 a cur.
   Proof.
     intro H. pose proof (proj1 (Forall_forall _ _) Htops cur H) as Hk. split; [|split; [|split; [|exact Hk]]].
     - destruct cur as [[[i g] o] y]. cbn in Hk. unfold top_num. cbn [fst]. tauto.
@@ -1268,17 +1307,45 @@ Section Multi.
     assert (Hmax : xref_max_id xm < u32_max).
     { unfold xref_max_id. apply N.le_lt_trans with (m := max_num (nums ++ xids)); [|lia].
       apply max_id_le; [lia|]. intros k v Hin. destruct (i_nums _ _ _ _ _ _ IF k v (Hfe k v Hin)) as [Hk _]. apply max_num_ge. exact Hk. }
+    assert (Hloc : forall tp, In tp tops -> exists off pre post,
+               xget (x_entries xm) (top_num tp) = Some (XNormal off (snd (fst (fst tp)))) /\ buf = pre ++ top_text tp ++ post /\ off = blen pre).
+    { intros tp Htp.
+      assert (Hne' : fe ((xs, (x0, t0)) :: cr) (top_num tp) <> None) by (apply (i_all _ _ _ _ _ _ IF tp Htp); intros []).
+      destruct (fe ((xs, (x0, t0)) :: cr) (top_num tp)) as [e|] eqn:Ee; [|contradiction].
+      destruct (i_nums _ _ _ _ _ _ IF _ _ Ee) as [_ [_ [off [g ->]]]].
+      assert (Hx : xget (x_entries xm) (top_num tp) = Some (XNormal off g)) by (unfold xm; rewrite xget_merge_chain; exact Ee).
+      destruct (i_cur _ _ _ _ _ _ IF _ _ _ Ee) as [tp' [pre [post [H1 [H2 [H3 H4]]]]]]; [intros _ []|].
+      assert (tp' = tp).
+      { apply in_app_or in H1 as [H1|H1].
+        - apply tops_unique; [exact H1|exact Htp|unfold top_num; rewrite H2; reflexivity].
+        - exfalso. apply (nums_not_xid (top_num tp)); [apply (tops_id tp Htp)|].
+          destruct (i_xt _ _ _ _ _ _ IF tp' H1) as [_ K]. unfold top_num in K. rewrite H2 in K. exact K. }
+      subst tp'. exists off, pre, post. rewrite H2 in *. cbn [snd]. auto. }
+    assert (Hlenf : forall li lg len, In ((li, lg), OInt len) (a_objs a) ->
+               exists offl rest, xget (x_entries xm) li = Some (XNormal offl lg) /\ offl <= blen buf /\
+                 from offl buf = w_indirect li lg (OInt len) (find_istyle (s_objs st) li) ++ rest /\ li <= u32_max /\ lg <= u16_max /\
+                 in_i64 len = true).
+    { intros li lg len Hin. set (tl := ((li, lg), OInt len, find_istyle (s_objs st) li)).
+      assert (Htl : In tl tops) by (unfold LoadsTableProofs.tops; apply in_map_iff; exists ((li, lg), OInt len); split; [reflexivity|exact Hin]).
+      destruct (Hloc tl Htl) as [off [pre [post [Hx [Hb He]]]]]. destruct (tops_id tl Htl) as [K1 [K2 [K3 K4]]].
+      exists off, (gap_bytes (i_gap (find_istyle (s_objs st) li)) ++ post). split; [exact Hx|]. split; [rewrite He, Hb; unfold blen; rewrite !app_length; lia|].
+      split; [rewrite He, Hb, from_app; unfold top_text, tl; cbn [fst snd]; rewrite <- app_assoc; reflexivity|].
+      split; [change li with (top_num tl); pose proof (max_num_ge (nums ++ xids) (top_num tl) (in_or_app _ _ _ (or_introl K3))); lia|].
+      split; [exact K2|]. unfold tl, LoadsRefLenProofs.top_ok2 in K4. cbn [fst snd] in K4. destruct K4 as [_ [_ [Hlw _]]]. exact Hlw. }
     assert (Hread : forall n off g, In (n, XNormal off g) (x_entries xm) ->
               exists tp, In tp (tops ++ xtF) /\ fst (fst tp) = (n, g) /\ off <= blen buf /\
                          indirect_x buf (x_entries xm) (from off buf) None = IxOk (n, g) (loaded_top tp) None /\ no_objstm (loaded_top tp)).
     { intros n off g Hin. destruct (i_cur _ _ _ _ _ _ IF n off g (Hfe _ _ Hin)) as [tp [pre [post [H1 [H2 [H3 H4]]]]]]; [intros _ []|].
       exists tp. split; [exact H1|]. split; [exact H2|].
-      assert (Hok : top_ok tp) by (apply in_app_or in H1 as [H1|H1]; [apply (tops_id tp H1)|apply (i_xt _ _ _ _ _ _ IF tp H1)]).
       assert (Hn : fst (fst (fst tp)) <= u32_max).
       { destruct (i_nums _ _ _ _ _ _ IF n _ (Hfe _ _ Hin)) as [Hk _]. rewrite H2. cbn [fst]. pose proof (max_num_ge _ _ Hk). lia. }
-      rewrite H4, H3. split; [unfold blen; rewrite !app_length; lia|]. rewrite from_app.
-      destruct (indirect_x_top (pre ++ top_text tp ++ post) (x_entries xm) tp post Hok Hn) as [P1 P2].
-      rewrite P1, H2. split; [reflexivity|exact P2]. }
+      rewrite H4. split; [rewrite H3; unfold blen; rewrite !app_length; lia|].
+      assert (Hfrom : from (blen pre) buf = top_text tp ++ post) by (rewrite H3; apply from_app). rewrite Hfrom.
+      apply in_app_or in H1 as [H1|H1].
+      - destruct (indirect_x_top2 buf (x_entries xm) a tp post (fun li => find_istyle (s_objs st) li) (proj2 (proj2 (proj2 (tops_id tp H1)))) Hn Hlenf)
+          as [P1 P2]. rewrite P1, H2. split; [reflexivity|exact P2].
+      - destruct (indirect_x_top buf (x_entries xm) tp post (proj1 (i_xt _ _ _ _ _ _ IF tp H1)) Hn) as [P1 P2].
+        rewrite P1, H2. split; [reflexivity|exact P2]. }
     set (objfM := fun n g : N => match xget (x_entries xm) n with
                                  | Some (XNormal off _) => match indirect_x buf (x_entries xm) (from off buf) None with
                                                            | IxOk _ o _ => o
